@@ -469,6 +469,24 @@ func zipLimitsMain(args []string) {
 	var lines, want, descr []string
 	for i := 0; i < n; i++ {
 		nodes := genArch(rnd, rnd.Intn(nest+1), 6)
+		if i%4 == 1 { // chains: at every level a few plain files followed by a nested archive as LAST entry
+			depth := rnd.Range(1, nest)
+			var build func(l int) []*archNode
+			build = func(l int) []*archNode {
+				var ns []*archNode
+				for k := rnd.Intn(3); k > 0; k-- {
+					archSeq++
+					sz := rnd.Intn(20)
+					ns = append(ns, &archNode{depth: 0, declared: sz, actual: sz, name: fmt.Sprintf("c%d.txt", archSeq)})
+				}
+				if l > 0 {
+					archSeq++
+					ns = append(ns, &archNode{depth: 0, zipName: true, isZip: true, inner: build(l - 1), name: fmt.Sprintf("n%d.zip", archSeq)})
+				}
+				return ns
+			}
+			nodes = build(depth)
+		}
 		data := materialise(nodes)
 		enc := encodeArch(nodes)
 		// measure what an unlimited extraction would leave, to pick interesting limits
@@ -510,6 +528,36 @@ func zipLimitsMain(args []string) {
 		lim := &customLimits{apply: !rnd.Chance(15), recursive: rnd.Chance(60), maxFile: int64(pick(maxFile)), maxTotal: uint64(pick(totalBytes)), maxCount: int64(pick(fileCount)), maxDepth: int64(rnd.Range(-1, 6))}
 		if rnd.Chance(30) {
 			lim.maxFile, lim.maxTotal, lim.maxCount = 1<<30, 1<<40, 1<<30
+		}
+		if i%4 == 1 { // chains: limits that only the CUMULATED totals across nesting levels exceed
+			plainBytes, plainFiles := 0, 0
+			var w2 func(ns []*archNode)
+			w2 = func(ns []*archNode) {
+				for _, nd := range ns {
+					if nd.isZip && nd.zipName {
+						w2(nd.inner)
+					} else if !nd.dir {
+						plainBytes += nd.declared
+						plainFiles++
+					}
+				}
+			}
+			w2(nodes)
+			lim = &customLimits{apply: true, recursive: true, maxFile: 1 << 30, maxTotal: 1 << 40, maxCount: 1 << 30, maxDepth: -1}
+			switch rnd.Intn(4) {
+			case 0:
+				if plainBytes > 0 {
+					lim.maxTotal = uint64(plainBytes - 1)
+				}
+			case 1:
+				if plainFiles > 0 {
+					lim.maxCount = int64(plainFiles - 1)
+				}
+			case 2:
+				lim.maxTotal = uint64(plainBytes)
+			default:
+				lim.maxCount = int64(plainFiles)
+			}
 		}
 		base := afero.NewMemMapFs()
 		rec := newRecFs(base)
